@@ -244,6 +244,7 @@ func runC05(c C05Case, cs *kit.CaseStats) error {
 	rec.Attach(node, nil)
 	done := 0
 	var tracked []*trackedTxn
+	var lastReported []types.TransactionID // ids of what the pool listed at the previous non-quiet step
 	trackedByID := map[types.TransactionID]*trackedTxn{}
 	allow := tr.Network.HardforkV2.AllowHeight
 	req := tr.Network.HardforkV2.RequireHeight
@@ -515,9 +516,41 @@ func runC05(c C05Case, cs *kit.CaseStats) error {
 		}
 		L = tip.Ledger
 		salt++
+		// every other step the first pool access is a look-up by id of what the
+		// pool reported last time: whatever it still hands out must be part of
+		// the (validated) listing taken next
+		var hits []types.TransactionID
+		if si%2 == 1 {
+			for _, id := range lastReported {
+				if _, ok := node.CM.V2PoolTransaction(id); ok {
+					hits = append(hits, id)
+				} else if _, ok := node.CM.PoolTransaction(id); ok {
+					hits = append(hits, id)
+				}
+			}
+			if len(lastReported) > 0 {
+				cs.Class("lookup-by-id-before-the-listing")
+			}
+		}
 		p1, p2, perr := checkPoolValid(node, L, salt)
 		if perr != nil {
 			return fmt.Errorf("%s: %w", where, perr)
+		}
+		lastReported = lastReported[:0]
+		for _, t := range p1 {
+			lastReported = append(lastReported, t.ID())
+		}
+		for _, t := range p2 {
+			lastReported = append(lastReported, t.ID())
+		}
+		for _, id := range hits {
+			found := false
+			for _, x := range lastReported {
+				found = found || x == id
+			}
+			if !found {
+				return fmt.Errorf("%s: the pool still handed out %v by id (first pool access after the step), but the pool it lists right afterwards does not contain it", where, id)
+			}
 		}
 		inPool := map[types.TransactionID]bool{}
 		for _, t := range p1 {
